@@ -270,6 +270,46 @@ def run(report, p):
     r4.instance(lip, lip.node, "latest generation selector")
     r4.check(len(last) == 1 and norm(last[0].slice) == "-1", lip, lip.node, "latest_ignore_patterns does not read the last (= highest) generation", construct="hash_lists[-1]")
 
+    # ------------------------------------------------------------------ R12.8
+    r8 = report.rule("R12.8", "a pattern file contributes one pattern per line, the line unchanged except for its line terminator (blank lines skipped): patterns containing spaces stay whole", 1)
+    pf = spec.methods.get("_append_patterns_from_file")
+    if pf is None:
+        cands = [m for m in spec.methods.values() if any("builtin:open" in tg for _, tg in p.calls[m.qual])]
+        pf = cands[0] if len(cands) == 1 else None
+    if pf is None:
+        raise AnalysisError("pattern-file reader of MHLIgnoreSpec not found")
+    r8.instance(pf, pf.node, "pattern file reader")
+    txt = norm(pf.node)
+    handle = None
+    for n in walk_no_nested(pf.node):
+        if isinstance(n, ast.withitem) and n.optional_vars is not None and isinstance(n.context_expr, ast.Call) and norm(n.context_expr.func) == "open":
+            handle = norm(n.optional_vars)
+    if handle is None:
+        raise AnalysisError(f"{pf.qual}: pattern file is not opened in a with statement (unrecognised idiom)")
+    harmful = []
+    recognised = False
+    for n in walk_no_nested(pf.node):
+        if isinstance(n, ast.Call) and isinstance(n.func, ast.Attribute):
+            if n.func.attr == "split" and (not n.args or (isinstance(n.args[0], ast.Constant) and n.args[0].value in (" ", None))) and handle in norm(n.func.value):
+                harmful.append((n, "split() on whitespace breaks a pattern that contains a space into several patterns"))
+            if n.func.attr in ("strip", "lstrip") and not n.args and any(isinstance(a, (ast.comprehension, ast.For)) or True for a in [0]) and "line" in norm(n.func.value):
+                harmful.append((n, f".{n.func.attr}() removes leading blanks that are significant in a pattern"))
+            if n.func.attr in ("lower", "upper", "casefold", "replace") and "line" in norm(n.func.value):
+                harmful.append((n, f".{n.func.attr}() alters the pattern text"))
+        if isinstance(n, (ast.GeneratorExp, ast.ListComp)) and len(n.generators) == 1 and norm(n.generators[0].iter) == handle:
+            elt = norm(n.elt).replace('"', "'")
+            tgt = norm(n.generators[0].target)
+            if elt in (f"{tgt}.rstrip('\\n')", f"{tgt}.rstrip('\\r\\n')", f"{tgt}.rstrip('\\n\\r')", f"{tgt}[:-1]"):
+                recognised = True
+        if isinstance(n, ast.Call) and isinstance(n.func, ast.Attribute) and n.func.attr == "splitlines" and handle in norm(n.func.value):
+            recognised = True
+    for n, why in harmful:
+        r8.check(False, pf, n, "pattern file parsing: " + why, construct=f"pattern file: {norm(n)[:60]}")
+    if not harmful:
+        if not recognised:
+            raise AnalysisError(f"{pf.qual}: pattern file parsing idiom not recognised")
+        r8.check(True, pf, pf.node, "")
+
     # ------------------------------------------------------------------ R12.5
     r5 = report.rule("R12.5", "at commit every written hash list gets MHLIgnoreSpec(<that history>.latest_ignore_patterns(), <session spec>.get_pattern_list()) before it is written (nested histories receive the parent run's patterns)", 1)
     commits = [f for f in p.funcs.values() if f.cls and f.name == "commit" and any(t.endswith("write_new_generation") for _, tg in p.calls[f.qual] for t in tg)]
